@@ -20,7 +20,7 @@ func init() {
 func C04(c *core.Ctx) {
 	c.Explanation("C04: variants.GetVariantsPair (getNucsPair, getAAsPair, merge/sort/dedup) is interpreted on a bounded family of gapped (reference, query) pairs - every single-site change to A/C/G/T/N/R/gap at every position of a 12-base reference, two changes per codon, every deletion of length 1..3, one and two insertions, both-gap columns - under three annotations (one forward gene, overlapping forward + reverse genes, a joined gene), against an independent specification: the set of positions mentioned as nuc: records or inside aa: records' SNP lists equals the set of positions whose base sets are disjoint (none dropped, none invented), and the aa: records are exactly the codons whose query translation is unambiguous and differs from the reference's under the standard code on the feature's strand. The codon dictionary is checked as in C17. Position coverage: for GenBank and GFF annotations (named, unnamed, overlapping, joined, reverse) every reference position is in the intergenic list or in the position list of a region that is scanned.")
 	c13Variants(c) // in aggregate mode (with --append-snps) every reported position is still mentioned
-	c02Rows(c) // sam variants reads the rows blockToPairwiseAlignment builds
+	c02Rows(c)     // sam variants reads the rows blockToPairwiseAlignment builds
 	checkArrivalOrderIndependence(c, "R7/reorder", "variants.WriteVariants")
 	checkSoftGapReaders(c, "R6", "pkg/variants", "pkg/sam", "pkg/gff", "pkg/genbank")
 	ev0 := newEval(c)
@@ -584,9 +584,9 @@ func gapLiterals(c *core.Ctx) []gapLit {
 
 func C11(c *core.Ctx) {
 	c.Explanation("C11: agreement by construction plus agreement on a bounded family: the SAM-path worker getVariantsSam (text rows, encoded in the worker) and the FASTA-path worker getVariants (encoded record, offsets from GetMSAOffsets as variants.Variants computes them) are interpreted on the same gapped pairs and annotations as C04/C05 and must emit identical mutation lists, names and indices; both paths call GetVariantsPair; sam variants obtains its rows from the function toPairAlign writes from (blockToPairwiseAlignment with insertions kept); both entry points hand results to the same two writers.")
-	c15Stdin(c) // toPairAlign -o stdout | variants reads the pair from a stream: the same table as from a file
-	c16Structural(c) // the FASTA form is read back by the same readers, with the same line limit in each
-	c02Rows(c) // sam variants reads the rows blockToPairwiseAlignment builds
+	c15Stdin(c)                                                                  // toPairAlign -o stdout | variants reads the pair from a stream: the same table as from a file
+	c16Structural(c)                                                             // the FASTA form is read back by the same readers, with the same line limit in each
+	c02Rows(c)                                                                   // sam variants reads the rows blockToPairwiseAlignment builds
 	checkArrivalOrderIndependence(c, "R8/reorder", "sam.writePairwiseAlignment") // the pair written is the pair of that query, whatever arrives meanwhile
 	checkCigarTables(c, "R7", func(t cigarTable) bool { return true })           // the toMultiAlign row and the toPairAlign pair come from tables that agree with the SAM specification
 	checkReferenceRecordName(c, "R6")
